@@ -1163,12 +1163,22 @@ class EventBus:
                 handler_tasks[handler_id] = (task, handler)
 
             # Wait for all handlers to complete
-            for handler_id, (task, handler) in handler_tasks.items():
-                try:
-                    await task
-                except Exception:
-                    # Error already logged and recorded in execute_handler
-                    pass
+            try:
+                for handler_id, (task, handler) in handler_tasks.items():
+                    try:
+                        await task
+                    except Exception:
+                        # Error already logged and recorded in execute_handler
+                        pass
+            except asyncio.CancelledError:
+                # We are being cancelled (e.g. by the timeout of a handler that is processing this event inline). Only the
+                # task we were awaiting got the cancellation: don't leave its sibling handler tasks running unsupervised
+                # after the global lock is released, cancel them too and wait until they have unwound
+                for task, _handler in handler_tasks.values():
+                    if not task.done():
+                        task.cancel()
+                await asyncio.gather(*(task for task, _handler in handler_tasks.values()), return_exceptions=True)
+                raise
         else:
             # otherwise, execute handlers serially, wait until each one completes before moving on to the next
             for handler_id, handler in applicable_handlers.items():
